@@ -28,8 +28,8 @@ CHEAP = ["aes128", "aes192", "aes256", "des", "tdes_ede3", "tdes_eee2", "sm4", "
          "rc5_32_12_16", "rc5_64_24_24", "idea", "gift128", "cast5", "cast6", "camellia128", "camellia256", "aria128",
          "aria256", "magma", "gost89_a", "rc2", "twofish", "serpent", "belt", "threefish256"]
 # kuznyechik only through compact_soft under Miri (the table builds cost ~20 s of interpretation each)
-MIRI_VARIANTS = ["aes_auto", "aes_auto_z", "aes_autoc_z", "aes_soft", "aes_soft_z", "aes_softc_z", "aes_alt_z", "aes_altc_z",
-                 "kuz_compact_z", "serpent", "serpent_z", "serpent_nu_z"]
+MIRI_VARIANTS = ["aes_auto", "aes_auto_z", "aes_autoc_z", "aes_autoc", "aes_soft", "aes_soft_z", "aes_softc_z", "aes_softc", "aes_alt_z", "aes_altc_z",
+                 "aes_alt", "aes_altc", "kuz_compact_z", "kuz_compact", "serpent", "serpent_z", "serpent_nu_z", "serpent_nu"]
 
 
 def env_offline():
@@ -270,8 +270,35 @@ def miri_exec_engine(prop, tier, seed):
             if pr.returncode != 0:
                 raise RuntimeError("export-target-grid --routes failed: " + pr.stderr[-300:])
             route_jobs.append((tgt, outp, grant))
+    # family sweep (C03, C04): one short history per crate on the 32-bit target (pointer-width assumptions, the
+    # unmodified fixslice32) and under the x86_64 interpreter (bounds / aliasing in every crate); thorough: every family
+    sweep_jobs = []
+    if prop in ("C03", "C04"):
+        gdir = os.path.join(BUILD, "tmp", f"exp-{prop}-sweep")
+        os.makedirs(gdir, exist_ok=True)
+        fams_out = subprocess.run([NATIVE, "families"], capture_output=True, text=True).stdout.split("\n")
+        fam_crate = [(ln.split()[0], ln.split()[1]) for ln in fams_out if ln.strip()]
+        seen, sweep = set(), []
+        for f, c in fam_crate:
+            if quick and c in seen:
+                continue
+            seen.add(c)
+            if f in ("blowfish", "blowfish_le", "threefish1024") and quick:
+                # key set-up too slow for the quick tier under the interpreter; covered in the thorough tier
+                if f != "blowfish":
+                    continue
+            sweep.append(f)
+        for f in sweep:
+            outp = os.path.join(gdir, f"{prop}-sweep-{f}.json")
+            pr = subprocess.run([NATIVE, "export-target-grid", "--sweep", "--prop", prop, "--seed", str(seed), "--family", f, "--variant", "-", "--par", "1", "--out", outp], capture_output=True, text=True)
+            if pr.returncode != 0:
+                raise RuntimeError("export-target-grid --sweep failed: " + pr.stderr[-300:])
+            sweep_jobs.append(("i686", outp, False))
+            if not quick or prop == "C04":
+                sweep_jobs.append(("x86_64", outp, False))
     jobs = [(t, f, False) for t in ("x86_64", "i686") for f in files]
     jobs += route_jobs
+    jobs += sweep_jobs
     jobs += [("aarch64", f, True) for f in a64_grid]
     jobs += [("aarch64", f, True) for f in a64_aes] + [("aarch64", f, False) for f in a64_aes[: (1 if quick else 8)]]
     jobs += [("aarch64", f, True) for f in a64_kuz]
